@@ -153,4 +153,32 @@ Proof.
   - (* call0 *) inversion Hc; subst. split; auto.
   - (* binop *) binop_contra Hc.
 Qed.
+
+(* the code of an argument of an internal function (compileCallInternal / compileFuncDef) *)
+Definition arg_code (v : var) (p sn : nat) (cb : list instr) (nvc : nat) : list instr :=
+  match cb with
+  | [] => [Iload v]
+  | [x] => if Nat.eqb nvc 0
+           then match x with Iconst c => [Ipush c] | _ => [Iload v; x] end
+           else Ijump (p + 2 + 1 + 1) :: Iscope sn nvc 0 :: [x] ++ [Iret; Iload v; Ipushpc (S p); Icallpc]
+  | _ => Ijump (p + 2 + length cb + 1) :: Iscope sn nvc 0 :: cb ++ [Iret; Iload v; Ipushpc (S p); Icallpc]
+  end.
+
+Lemma comp_binop_inv : forall o a b ce cur pc nv sn cq nv' sn', comp (QBinop o a b) ce cur pc nv sn = Some (cq, nv', sn') ->
+  cur < sn /\ exists cb nb s1 ca na,
+    comp b ce sn (S pc + 2) 0 (S sn) = Some (cb, nb, s1) /\
+    comp a ce s1 (S pc + length (arg_code (cur, nv) (S pc) sn cb nb) + 2) 0 (S s1) = Some (ca, na, sn') /\
+    cq = Istore (cur, nv) :: arg_code (cur, nv) (S pc) sn cb nb ++
+           arg_code (cur, nv) (S pc + length (arg_code (cur, nv) (S pc) sn cb nb)) s1 ca na ++ [Iload (cur, nv); Icall (NF2 o)] /\
+    nv' = S nv.
+Proof.
+  intros o a b ce cur pc nv sn cq nv' sn' Hc. unfold arg_code. cbn -[Nat.add Nat.ltb Nat.eqb] in Hc |- *.
+  destruct (Nat.ltb_spec cur sn) as [Hlt|]; [|discriminate]. split; [exact Hlt|].
+  destruct (comp b ce sn (S pc + 2) 0 (S sn)) as [[[cb nb] s1]|] eqn:Eb; [|discriminate]. cbv iota beta in Hc.
+  match type of Hc with context [comp a ?ce0 ?c0 ?p0 ?n0 ?s0] =>
+    destruct (comp a ce0 c0 p0 n0 s0) as [[[ca na] s2]|] eqn:Ea; [|discriminate] end.
+  cbv iota beta in Hc. inversion Hc; subst. exists cb, nb, s1, ca, na.
+  split; [reflexivity|]. split; [exact Ea|]. split; reflexivity.
+Qed.
+
 End S.
